@@ -130,8 +130,8 @@ example :
       (ctxEnter (Timer.init .none 0 9) none .stopStart 4).2 = false := by
   decide
 
-/-- **The table `Timer.__str__` prints** (documented behaviour; the tree as it is raises
-    `TypeError` while any timer runs — finding `timer-str-running`): after any history on any
+/-- **The table `Timer.__str__` prints** (documented behaviour; before commit `2b46a8f` a
+    `TypeError` was raised while any timer ran — finding `timer-str-running`): after any history on any
     configuration with a non-decreasing clock the rows are those of the existing labels, each
     exactly once, in sorted order; `Accum.` + `Current` is the ideal stop-watch's total, `Current`
     is the ideal stop-watch's `total=False` reading and reads `Stopped` iff the label's last event
@@ -505,7 +505,7 @@ theorem C15_history_equiv (E : Env ω ρ ξ α) (cb : Option (Callback ω)) (d :
   exact ⟨a, b, c, e, f, g⟩
 
 /-- **Callbacks that assign `optimizer.itnum` / `optimizer.maxiter`** (`CallbackX`: arbitrary
-    `ctl`), for the tree as it is (`late = true`) and for the repaired `solve` (`late = false`).
+    `ctl`), for the tree before commit `1b5db51` (`late = true`) and since it (`late = false`).
     Unconditionally — also when the NaN stop trips — the call has the same outcome and leaves the
     same state, records (numbers included), callback log, clock and timer as with the plain
     callback: the number of iterations and the numbering are fixed when the call starts and no
@@ -524,10 +524,10 @@ theorem C15_callback_assigns (late : Bool) (E : Env ω ρ ξ α) (cbx : Option (
     callback left (`ctlAt`: the loop assigns `itnum = i₀ + k` at the start of iteration `k`, so
     only the *last* callback's assignment to `itnum` survives; assignments to `maxiter`
     accumulate).  The counter is what the last callback left, plus one iff
-    * `late = true` (tree as it is): the `maxiter` *left by the callbacks* is positive — a callback
+    * `late = true` (before `1b5db51`): the `maxiter` *left by the callbacks* is positive — a callback
       that sets `maxiter ≤ 0` leaves the counter one short, and the next call repeats an iteration
       number (finding `callback-maxiter-counter`);
-    * `late = false` (repaired): the `maxiter` of the call was positive.
+    * `late = false` (since `1b5db51`): the `maxiter` of the call was positive.
     With callbacks that assign nothing both are `itnum + max(maxiter,0)`. -/
 theorem C15_callback_counter (late : Bool) (E : Env ω ρ ξ α) (cbx : Option (CallbackX ω)) (d : Drv ω ρ L)
     (hr : Ready d) (hn : NoTrip E (plainCb cbx) d) :
@@ -610,8 +610,8 @@ example :
 /-- a callback that asks for "no further iterations" by `optimizer.maxiter = 0` -/
 def exCbStop : CallbackX Nat := { run := id, ticks := fun _ => 1, ctl := fun _ i _ => (i, 0) }
 
--- tree as it is: three iterations 2,3,4 are performed and recorded, but the counter ends at 4, so the
--- next call would number its first iteration 4 again; repaired: 5
+-- before 1b5db51: three iterations 2,3,4 are performed and recorded, but the counter ends at 4, so the
+-- next call would number its first iteration 4 again; since then: 5
 example : (solveX true exEnv (some exCbStop) exDrv).1.rows.map (·.iter) = [2, 3, 4] ∧
     (solveX true exEnv (some exCbStop) exDrv).1.itnum = 4 ∧
     (solveX false exEnv (some exCbStop) exDrv).1.itnum = 5 := by decide
